@@ -276,8 +276,7 @@ Definition write_svg (matrix align : list (list Z)) (size : Z) (colors : color_o
   let is_multicolor :=
     (2 <? lenZ (distinct_colors (map snd colormap)))
     || existsb (fun kv => negb (ocolor_eqb (snd kv) (if Z.shiftr (fst kv) 8 =? 0 then quiet else ddark))) colormap in
-  let need_background := negb is_multicolor && (match quiet with Some _ => true | None => false end)
-                         && negb (so_draw_transparent o) in
+  let need_background := negb is_multicolor && (match quiet with Some _ => true | None => false end) in
   let need_svg_group := negb (scale_is_1 scale) && (need_background || is_multicolor) in
   do items <- (if is_multicolor then multi_color_lines matrix align size border colormap
                else Ok (map (fun s => (ddark, s)) (two_color_lines matrix border)));
